@@ -30,7 +30,7 @@ CONSTANTS
 
 VARIABLE b     \* builder: [phase, steps, pts]
 
-Pars == <<PA, PB, PC, P0, PZ>>
+Pars == <<PA, PB, PC, P0, PZ, P(Keep, 32), P(192, Keep)>>     \* the last two name only one parameter
 
 PrefixMenu(s) ==
     LET t == s.now
